@@ -54,9 +54,9 @@ struct Env {
 thread_local! { static ENV: RefCell<Option<Env>> = RefCell::new(None); }
 
 fn tcp_pair() -> (std::net::TcpStream, std::net::TcpStream) {
-    let l = std::net::TcpListener::bind("127.0.0.1:0").unwrap();
+    let l = crate::retry_io!(std::net::TcpListener::bind("127.0.0.1:0"));
     let a = l.local_addr().unwrap();
-    let c = std::net::TcpStream::connect(a).unwrap();
+    let c = crate::retry_io!(std::net::TcpStream::connect(a));
     let (s, _) = l.accept().unwrap();
     c.set_nodelay(true).ok();
     (s, c)
@@ -628,9 +628,9 @@ struct Sess {
 }
 
 async fn new_session() -> Sess {
-    let l = tokio::net::TcpListener::bind("127.0.0.1:0").await.unwrap();
+    let l = crate::retry_io!(tokio::net::TcpListener::bind("127.0.0.1:0").await);
     let a = l.local_addr().unwrap();
-    let client = tokio::net::TcpStream::connect(a).await.unwrap();
+    let client = crate::retry_io!(tokio::net::TcpStream::connect(a).await);
     let (srv, _) = l.accept().await.unwrap();
     client.set_nodelay(true).ok();
     let (r, w) = srv.into_split();
